@@ -82,6 +82,30 @@ def gen():
                     if a in l and "emit_token" in l:
                         add("toktype", l.replace(a, b, 1))
                         break
+            if "debug_assert" not in l and "cfg" not in l and not s.startswith("#"):
+                # drop the last alternative of an or-pattern in a match arm
+                m = re.fullmatch(r"(\s*)((?:[\w:']+(?:\([^)]*\))? \| )+)([\w:']+(?:\([^)]*\))?) (=>|if) (.*)", l)
+                if m and m.group(2).count(" | ") >= 1:
+                    add("match_alt", f"{m.group(1)}{m.group(2)[:-3]} {m.group(4)} {m.group(5)}")
+                # forget a state update: a plain field assignment or compound assignment on self
+                if re.fullmatch(r"self\.[a-z_\.]+ (=|\+=|-=) [^;]+;", s) and "let " not in l:
+                    add("drop_assign", l.replace(s, ""))
+                # a bool argument flipped
+                m = re.search(r"\((?:[^()]*, )?(true|false)(?:, [^()]*)?\);", l)
+                if m and "fn " not in l and "assert" not in l and "set_pending_stat" not in l:
+                    a = m.group(1); b = "false" if a == "true" else "true"
+                    add("flip_bool", l[:m.start(1)] + b + l[m.end(1):])
+                # the negation dropped from a condition
+                m = re.fullmatch(r"(\s*)(\} else )?if !(.+) \{", l)
+                if m and " && " not in l and " || " not in l:
+                    add("drop_not", f"{m.group(1)}{m.group(2) or ''}if {m.group(3)} {{")
+                # an early exit dropped / a loop control swapped
+                if s in ("return;", "break;", "continue;"):
+                    add("drop_exit", l.replace(s, {"return;": "", "break;": "continue;", "continue;": "break;"}[s]))
+                # a small integer constant off by one
+                m = re.search(r"(?<![\w.])(2|3|4|8|16|32|64|256)(?![\w.])", l)
+                if m and fn in ("mod.rs", "macro.rs", "numeric.rs", "hex.rs", "cursor.rs", "buffer.rs") and "=>" not in l and "with_capacity" not in l and "[" not in l and "const " not in l:
+                    add("const_off", l[:m.start(1)] + str(int(m.group(1)) - 1) + l[m.end(1):])
             if re.search(r"'[a-z]' \| '[A-Z]'", l):
                 m = re.search(r"'([a-z])' \| '([A-Z])'", l)
                 add("case", l.replace(m.group(0), f"'{m.group(1)}'", 1))
